@@ -8,7 +8,8 @@ ID = "C18"
 LEVEL = "exploration"
 RULE = ("recursive random values: None, bool, ints (incl. beyond 2**64), floats (+-0.0, 1e308, 5e-324, inf, nan), "
         "unicode strings (empty, quotes, control characters, U+2028, astral), UUIDs, a registered third-party type "
-        "(decimal.Decimal), a 4-level SubclassJSONSerializer hierarchy with nested serialisable fields, lists nested "
+        "(decimal.Decimal, fractions.Fraction, a three-level plain-class chain Money > TaxedMoney > Tip registered base "
+        "first, a sub-class registered before its base, and a registered sub-class of uuid.UUID), a 4-level SubclassJSONSerializer hierarchy with nested serialisable fields, lists nested "
         "to depth 5 and empty lists; oracle: from_json(json.loads(json.dumps(to_json(v)))) equals v (NaN-aware) with "
         "type(x) is type(y) at every position and every serialised object dict carries its fully qualified tag.  "
         "Non-trivial = value contains an object or a nested list; distinct = type-structure signature of the value")
@@ -22,7 +23,8 @@ def plan(tier):
     return {"cases": 20000 if tier == "quick" else 500000, "shards": 16, "case_timeout": 10, "shard_timeout": 3000,
             "min_nontrivial": 300,
             "min_counters": {"objects_roundtripped": 5000, "tags_checked": 5000, "leaf:float": 1000, "leaf:uuid": 300,
-                             "leaf:decimal": 300, "lists": 3000}}
+                             "leaf:decimal": 300, "lists": 3000, "leaf:taxedmoney": 100, "leaf:entityid": 100,
+                             "leaf:early": 100, "leaf:tip": 100}}
 
 
 def setup(ctx):
@@ -40,7 +42,15 @@ INTS = [0, 1, -1, 2 ** 31, -2 ** 31, 2 ** 63, 2 ** 64 + 1, -(2 ** 70), 10 ** 30,
 def gen_value(rng, depth):
     r = rng.random()
     if depth <= 0 or r < 0.45:
-        k = rng.choice(["none", "bool", "int", "float", "str", "uuid", "decimal"])
+        k = rng.choice(["none", "bool", "int", "float", "str", "uuid", "decimal", "reg"])
+        if k == "reg":
+            cls = rng.choice(["Money", "TaxedMoney", "Tip", "Early", "EntityId", "Fraction"])
+            if cls == "EntityId":
+                return ["reg", cls, "%032x" % rng.getrandbits(128)]
+            if cls == "Fraction":
+                return ["reg", cls, rng.randint(-50, 50), rng.randint(1, 9)]
+            return ["reg", cls, rng.choice(["0", "1.50", "-3", "1e9"]), rng.choice(["EUR", "USD", "¥"]),
+                    rng.choice(["0", "0.19"]), rng.choice(["", "thanks"])]
         if k == "none":
             return ["none"]
         if k == "bool":
@@ -91,6 +101,14 @@ def materialise(v, jm):
         return uuid.UUID(v[1])
     if k == "decimal":
         return decimal.Decimal(v[1])
+    if k == "reg":
+        import fractions
+        if v[1] == "EntityId":
+            return jm.EntityId(v[2])
+        if v[1] == "Fraction":
+            return fractions.Fraction(v[2], v[3])
+        n = {"Money": 2, "Early": 2, "TaxedMoney": 3, "Tip": 4}[v[1]]
+        return getattr(jm, v[1])(*v[2:2 + n])
     if k == "list":
         return [materialise(x, jm) for x in v[1]]
     cls = [jm.Node0, jm.Node1, jm.Node2, jm.Node3][v[1]]
@@ -108,6 +126,8 @@ def signature(v):
         return "[" + ",".join(sorted({signature(x) for x in v[1]})) + "]"
     if k == "node":
         return f"N{v[1]}(" + signature(v[3]) + ";" + ",".join(sorted({signature(x) for x in v[4]})) + ")"
+    if k == "reg":
+        return "reg:" + v[1]
     return k
 
 
@@ -148,9 +168,15 @@ def same(a, b, path, problems, C):
         problems.append(f"{path}: {a!r} -> {b!r}")
 
 
+def jm_Money():
+    from models import jsonmodel
+    return jsonmodel.Money
+
+
 def check_tags(value, ser, path, problems, C):
     import dataclasses
     import decimal
+    import fractions
     import uuid
     if isinstance(value, list):
         if not isinstance(ser, list) or len(ser) != len(value):
@@ -158,7 +184,7 @@ def check_tags(value, ser, path, problems, C):
             return
         for i, (v, s) in enumerate(zip(value, ser)):
             check_tags(v, s, f"{path}[{i}]", problems, C)
-    elif dataclasses.is_dataclass(value) or isinstance(value, (uuid.UUID, decimal.Decimal)):
+    elif dataclasses.is_dataclass(value) or isinstance(value, (uuid.UUID, decimal.Decimal, fractions.Fraction, jm_Money())):
         C["tags_checked"] += 1
         want = type(value).__module__ + "." + type(value).__name__
         if not isinstance(ser, dict) or ser.get("__json_type__") != want:
